@@ -7,7 +7,8 @@ PID = "C34"
 META = {
     "level": "model_checking",
     "text": "TLC explores the transcription of the key object (stored key map + in-memory signer map keyed by valid_from, "
-            "rotate / revoke / assert / load, plugin stage-then-store, reload at commit, restart, valueset merge on replication) "
+            "rotate / revoke / assert / load, plugin stage-then-store, reload at commit, restart, valueset merge AND trim of old "
+            "revoked keys on replication, with the status change id of every key) "
             "on one and two replicas against the statement (revoked never verifies again, signatures use a newest started "
             "non-revoked key, unrevoked keys keep verifying, nothing is un-revoked); the scenarios derived from the model's "
             "counterexample for a stale signer map plus seeded random histories run on two REAL servers (one restarted on its "
@@ -27,7 +28,7 @@ def run(tier, replay):
     wd = lib.workdir(PID)
     lib.build(tokcommon.GROUP)
     quick = tier == "quick"
-    cfgs = ["KKeysMC", "KKeysMC1b"] if quick else ["KKeysMC", "KKeysMC1b", "KKeysMC3", "KKeysMC2"]
+    cfgs = ["KKeysMC", "KKeysMC1q"] if quick else ["KKeysMC", "KKeysMC1q", "KKeysMC1b", "KKeysMC3", "KKeysMC2"]
     states, trans, per = tokcommon.mc_runs("KKeysMC", cfgs, PID, 4 if quick else 8, 300 if quick else 2400)
     hyp = None
     if not quick:
@@ -36,6 +37,10 @@ def run(tier, replay):
         if h["error"]:
             lib.tool_error("KKeysHyp run failed")
         hyp = bool(h["violated"])
+        # seeded hypothesis in the model only: a revocation that keeps the key's old status change id is trimmed by the merge
+        h2 = lib.tlc("KKeysMC", cfg="KKeysHyp2", pid=PID, workers=4, timeout=900)
+        if h2["error"] or not h2["violated"]:
+            lib.tool_error("KKeysHyp2: the model without revocation stamping is no longer rejected")
     obs = f"{wd}/obs.ndjson"
     db = f"{wd}/keys.db"
     if replay:
